@@ -22,7 +22,10 @@ Tokyo == [name |-> "Asia/Tokyo", tz |-> << <<0, 540>> >>]
 NewYork == [name |-> "America/New_York", tz |-> << <<0, -300>>, <<543600, -240>> >>]
 Zones == {UTC, Tokyo, NewYork}
 Leaves == {<<>>, << <<86400, 172800>> >>}                 \* Tuesday (UTC day)
-Vacs == IF Quick THEN {<<>>} ELSE {<<>>, << <<172800, 259200>> >>}      \* Wednesday
+\* none | Wednesday | a shutdown Tuesday - Friday with a holiday (Wednesday) declared inside it, in either order
+Nested == << <<86400, 432000>>, <<172800, 259200>> >>
+NestedR == << <<172800, 259200>>, <<86400, 432000>> >>
+Vacs == IF Quick THEN {<<>>, Nested} ELSE {<<>>, << <<172800, 259200>> >>, Nested, NestedR}
 ResC(h, z, lv) == [name |-> "r", parent |-> 0, leaf |-> TRUE, effN |-> 1, effD |-> 1, cal |-> "hours", hours |-> h,
                    leaves |-> lv, tz |-> z.tz, tzname |-> z.name, limits |-> <<>>, lmul |-> 1]
 Sun12 == 6 * 86400 + 12 * 3600
